@@ -130,6 +130,270 @@ def build():
         return out
     plan.extra_obligations.append(packing_obligations)
 
+
+    # ------------------------------------------------------------------ Table.merge_cells (one range): which cells are converted
+    from pyvc.sym import Custom, Bool, PDict
+    A = z3.ArraySort
+    AAb = lambda: A(Int, A(Int, Bool))
+
+    class G1:
+        """ghost: cells replaced by a placeholder (M), cells registered as references to the rectangle (R), anchors added"""
+        def __init__(self, tag=""):
+            self.M = z3.Const(fresh_name("replaced" + tag), AAb())
+            self.R = z3.Const(fresh_name("referenced" + tag), AAb())
+            self.anchors = z3.Int(fresh_name("anchors" + tag))
+
+    class G2:
+        def __init__(self, tag=""):
+            self.SET = z3.Const(fresh_name("merge_state_set" + tag), AAb())
+
+    def put(arr2, r, c, v):
+        return z3.Store(arr2, r, z3.Store(z3.Select(arr2, r), c, v))
+
+    def at(arr2, r, c):
+        return z3.Select(z3.Select(arr2, r), c)
+
+    class DataGrid(Custom):
+        def __init__(self, env_holder):
+            self.h = env_holder
+
+        def length(self, ex):
+            return self.h["g_nr"].t
+
+        def getitem(self, ex, idx, line):
+            ex.safety(z3.And(T(idx) >= 0, T(idx) < self.h["g_nr"].t), "IndexError", "row-in-table", line)
+            return RowV(self.h, T(idx))
+
+    class RowV(Custom):
+        def __init__(self, h, r):
+            self.h, self.r = h, r
+
+        def length(self, ex):
+            return self.h["g_nc"].t
+
+        def getitem(self, ex, idx, line):
+            ex.safety(z3.And(T(idx) >= 0, T(idx) < self.h["g_nc"].t), "IndexError", "col-in-table", line)
+            return PObj("CellV", {"r": wrap(self.r), "c": wrap(T(idx)), "h": self.h})
+
+        def setitem(self, ex, idx, v, line):
+            ex.safety(z3.And(T(idx) >= 0, T(idx) < self.h["g_nc"].t), "IndexError", "col-in-table", line)
+            if not (isinstance(v, PObj) and v.cls == "MergedCell"):
+                raise Unsupported(f"grid store of {type(v).__name__}")
+            ex.oblige(f"placeholder-carries-its-own-position@L{line}", z3.And(T(v.fields["row"]) == self.r, T(v.fields["col"]) == T(idx)), "ghost", line)
+            g = self.h["g1"].fields["state"]
+            g.M = put(g.M, self.r, T(idx), z3.BoolVal(True))
+
+    def mc_entry(ex):
+        nr, nc = ex.fresh("int", "num_rows"), ex.fresh("int", "num_cols")
+        rs, cs, re_, ce = (ex.fresh("int", n_) for n_ in ("row_start", "col_start", "row_end", "col_end"))
+        ex.assume(z3.And(0 <= rs.t, rs.t <= re_.t, re_.t < nr.t, 0 <= cs.t, cs.t <= ce.t, ce.t < nc.t))
+        h = {"g_nr": nr, "g_nc": nc, "g_rs": rs, "g_cs": cs, "g_re": re_, "g_ce": ce}
+        g1, g2 = G1(), G2()
+        g1.M, g1.R, g1.anchors = z3.K(Int, z3.K(Int, z3.BoolVal(False))), z3.K(Int, z3.K(Int, z3.BoolVal(False))), z3.IntVal(0)
+        g2.SET = z3.K(Int, z3.K(Int, z3.BoolVal(False)))
+        h["g1"], h["g2"] = PObj("Ghost", {"state": g1}), PObj("Ghost", {"state": g2})
+        mcs = PObj("MergeCells", {"h": h})
+        model = PObj("_NumbersModel", {"g_merge": mcs})
+        table = PObj("Table", {"_model": model, "_table_id": ex.fresh("int", "table_id"), "_data": DataGrid(h)})
+        env = {"self": table, "cell_range": ex.fresh("str", "cell_range")}
+        env.update(h)
+        ex.mc_h = h
+        return env
+
+    def m_add_anchor(ex, o, a, k, l):
+        h = o.fields["h"]
+        g = h["g1"].fields["state"]
+        r, c, size = a
+        ex.oblige(f"anchor-is-the-top-left-with-the-rectangle-size@L{l}",
+                  z3.And(T(r) == h["g_rs"].t, T(c) == h["g_cs"].t, T(size[0]) == h["g_re"].t - h["g_rs"].t + 1, T(size[1]) == h["g_ce"].t - h["g_cs"].t + 1), "ghost", l)
+        g.anchors = g.anchors + 1
+
+    def m_add_reference(ex, o, a, k, l):
+        h = o.fields["h"]
+        g = h["g1"].fields["state"]
+        r, c, rect = a
+        ex.oblige(f"reference-names-the-whole-rectangle@L{l}",
+                  z3.And(*[T(x) == h[n_].t for x, n_ in zip(rect, ("g_rs", "g_cs", "g_re", "g_ce"))]), "ghost", l)
+        g.R = put(g.R, T(r), T(c), z3.BoolVal(True))
+
+    def m_get(ex, o, a, k, l):
+        (key,) = a
+        return PObj("MergeLookup", {"r": key[0], "c": key[1]})
+
+    def m_set_merge(ex, o, a, k, l):
+        h = o.fields["h"]
+        look = a[0]
+        ex.oblige(f"merge-state-looked-up-for-the-cell-itself@L{l}", z3.And(T(look.fields["r"]) == T(o.fields["r"]), T(look.fields["c"]) == T(o.fields["c"])), "ghost", l)
+        g = h["g2"].fields["state"]
+        g.SET = put(g.SET, T(o.fields["r"]), T(o.fields["c"]), z3.BoolVal(True))
+    mm12 = ctx.method_models = getattr(ctx, "method_models", {})
+    mm12[("MergeCells", "add_anchor")] = m_add_anchor
+    mm12[("MergeCells", "add_reference")] = m_add_reference
+    mm12[("MergeCells", "get")] = m_get
+    mm12[("CellV", "_set_merge")] = m_set_merge
+    mm12[("_NumbersModel", "merge_cells")] = lambda ex, o, a, k, l: o.fields["g_merge"]
+
+    def in_done(h, r, c, rows_done, row_cur=None, cols_done=None):
+        rs, cs, ce = h["g_rs"].t, h["g_cs"].t, h["g_ce"].t
+        tl = z3.And(r == rs, c == cs)
+        full = z3.And(rs <= r, r < rs + rows_done, cs <= c, c <= ce, z3.Not(tl))
+        if row_cur is None:
+            return full
+        return z3.Or(full, z3.And(r == row_cur, cs <= c, c < cs + cols_done, z3.Not(tl)))
+
+    def g1_facts(h, g, rows_done, row_cur=None, cols_done=None):
+        r, c = z3.Int(fresh_name("mr")), z3.Int(fresh_name("mc"))
+        d = in_done(h, r, c, rows_done, row_cur, cols_done)
+        return z3.And(g.anchors == 1, z3.ForAll([r, c], z3.And(at(g.M, r, c) == d, at(g.R, r, c) == d)))
+
+    def mc_inv1(ex, env):
+        h = ex.mc_h
+        i = T(env["_i"])
+        return z3.And(i >= 0, i <= h["g_re"].t - h["g_rs"].t + 1, g1_facts(h, h["g1"].fields["state"], i),
+                      T(env["row_start"]) == h["g_rs"].t, T(env["col_start"]) == h["g_cs"].t, T(env["row_end"]) == h["g_re"].t, T(env["col_end"]) == h["g_ce"].t)
+
+    def mc_inv2(ex, env):
+        h = ex.mc_h
+        j, row = T(env["_j"]), T(env["row"])
+        return z3.And(j >= 0, j <= h["g_ce"].t - h["g_cs"].t + 1, row >= h["g_rs"].t, row <= h["g_re"].t,
+                      g1_facts(h, h["g1"].fields["state"], row - h["g_rs"].t, row, j),
+                      T(env["row_start"]) == h["g_rs"].t, T(env["col_start"]) == h["g_cs"].t, T(env["row_end"]) == h["g_re"].t, T(env["col_end"]) == h["g_ce"].t)
+
+    def g2_facts(h, g, rows_done, row_cur=None, cols_done=None):
+        r, c = z3.Int(fresh_name("sr")), z3.Int(fresh_name("sc"))
+        done = z3.And(0 <= r, r < rows_done, 0 <= c, c < h["g_nc"].t)
+        if row_cur is not None:
+            done = z3.Or(done, z3.And(r == row_cur, 0 <= c, c < cols_done))
+        return z3.ForAll([r, c], z3.Implies(done, at(g.SET, r, c)))
+
+    def mc_inv3(ex, env):
+        h = ex.mc_h
+        k = T(env["_k"])
+        return z3.And(k >= 0, k <= h["g_nr"].t, g2_facts(h, h["g2"].fields["state"], k))
+
+    def mc_inv4(ex, env):
+        h = ex.mc_h
+        l_, row = T(env["_l"]), T(env["row"])
+        return z3.And(l_ >= 0, l_ <= h["g_nc"].t, row >= 0, row < h["g_nr"].t, g2_facts(h, h["g2"].fields["state"], row, row, l_))
+
+    def havoc1(ex, env):
+        ex.mc_h["g1"].fields["state"] = G1("_h")
+
+    def havoc2(ex, env):
+        ex.mc_h["g2"].fields["state"] = G2("_h")
+
+    def mc_post(ex, env):
+        h = ex.mc_h
+        g1, g2 = h["g1"].fields["state"], h["g2"].fields["state"]
+        r, c = z3.Int(fresh_name("pr")), z3.Int(fresh_name("pc"))
+        rs, cs, re_, ce = (h[n_].t for n_ in ("g_rs", "g_cs", "g_re", "g_ce"))
+        inside = z3.And(rs <= r, r <= re_, cs <= c, c <= ce, z3.Not(z3.And(r == rs, c == cs)))
+        return z3.And(g1.anchors == 1, z3.ForAll([r, c], z3.And(at(g1.M, r, c) == inside, at(g1.R, r, c) == inside)),
+                      z3.ForAll([r, c], z3.Implies(z3.And(0 <= r, r < h["g_nr"].t, 0 <= c, c < h["g_nc"].t), at(g2.SET, r, c))))
+    mc_post.__name__ = ("one anchor at the top-left with the rectangle's size; exactly the other cells of the rectangle are replaced by placeholders "
+                        "(each carrying its own position) and registered as references to the whole rectangle - none outside, none missing; then "
+                        "every cell of the table has its merge state set from the lookup for its own position")
+
+    plan.target(Contract(
+        "document:Table.merge_cells", label="one-range", entry=mc_entry, ensures=[mc_post], safety="fork",
+        opaque={"cell_range.split(':')": lambda ex, env: (ex.fresh("str", "start_ref"), ex.fresh("str", "end_ref")),
+                "xl_cell_to_rowcol(start_cell_ref)": lambda ex, env: (ex.mc_h["g_rs"], ex.mc_h["g_cs"]),
+                "xl_cell_to_rowcol(end_cell_ref)": lambda ex, env: (ex.mc_h["g_re"], ex.mc_h["g_ce"]),
+                "Cell._merged_cell(self._table_id, row, col, self._model)": lambda ex, env: PObj("MergedCell", {"row": env["row"], "col": env["col"]})},
+        loops={2: LoopSpec([mc_inv1], index="_i", havoc=[havoc1]), 3: LoopSpec([mc_inv2], index="_j", havoc=[havoc1]),
+               4: LoopSpec([mc_inv3], index="_k", havoc=[havoc2]), 5: LoopSpec([mc_inv4], index="_l", havoc=[havoc2])},  # loop 1 is the list branch
+        canaries=[]))  # quantified loop facts make 'sat' answers unreachable for the solvers; consistency of the assumed invariants follows
+    # from cover/requires-satisfiable + the proved inv-entry obligations; the mutants listed in DESIGN 11 were tried by hand
+
+
+    # ------------------------------------------------------------------ recalculate_merged_cells: the stored map is rebuilt from every anchor
+    PACK = z3.Function("packed_pair", Int, Int, Int)  # (hi << 16 | lo): its arithmetic is the packing obligation above
+    SZH, SZW = z3.Function("anchor_height", Int, Int, Int), z3.Function("anchor_width", Int, Int, Int)
+
+    class Anchors(Custom):
+        def __init__(self, n, R, C):
+            self.n, self.R, self.C = n, R, C
+
+        def length(self, ex):
+            return self.n
+
+        def getitem(self, ex, idx, line):
+            if isinstance(idx, int) and idx in (0, 1):
+                raise Unsupported("anchor list indexed by a constant")
+            return (wrap(z3.Select(self.R, T(idx))), wrap(z3.Select(self.C, T(idx))))
+
+    class Ranges(Custom):
+        def __init__(self, ln, org, size):
+            self.ln, self.org, self.size = ln, org, size
+
+        def length(self, ex):
+            return self.ln
+
+        def method(self, ex, name, args, kwargs, line):
+            if name != "append":
+                raise Unsupported(f"cell_range.{name}")
+            cr = args[0].fields
+            self.org = z3.Store(self.org, self.ln, T(cr["origin"].fields["packedData"]))
+            self.size = z3.Store(self.size, self.ln, T(cr["size"].fields["packedData"]))
+            self.ln = self.ln + 1
+
+    def rm_entry(ex):
+        n = z3.Int(fresh_name("n_anchors"))
+        ex.assume(n >= 0)
+        anchors = Anchors(n, z3.Const(fresh_name("anchor_row"), A(Int, Int)), z3.Const(fresh_name("anchor_col"), A(Int, Int)))
+        new_map = PObj("MergeRegionMap", {"cell_range": Ranges(z3.IntVal(0), z3.K(Int, z3.IntVal(0)), z3.K(Int, z3.IntVal(0)))})
+        old_map = PObj("MergeRegionMap", {"cell_range": Ranges(z3.Int(fresh_name("old_len")), z3.Const(fresh_name("old_org"), A(Int, Int)), z3.Const(fresh_name("old_size"), A(Int, Int)))})
+        new_id, old_id = ex.fresh("int", "new_map_id"), ex.fresh("int", "old_map_id")
+        ex.assume(new_id.t != old_id.t)
+        mcs = PObj("MergeCellsView", {"anchors": anchors})
+        store = PObj("ObjectStoreView", {"new": (new_id, new_map)})
+        ref = PObj("RefSlot", {"identifier": old_id})
+        table_model = PObj("TableModelView", {"base_data_store": PObj("DataStoreView", {"merge_region_map": ref})})
+        model = PObj("ModelView", {"objects": store, "g_mcs": mcs, "g_table": table_model, "g_old": (old_id, old_map)})
+        return {"self": model, "table_id": ex.fresh("int", "table_id"), "g_anchors": anchors, "g_new": new_map, "g_new_id": new_id, "g_ref": ref}
+    mm12[("ModelView", "merge_cells")] = lambda ex, o, a, k, l: o.fields["g_mcs"]
+    mm12[("MergeCellsView", "merge_cells")] = lambda ex, o, a, k, l: o.fields["anchors"]
+    mm12[("MergeCellsView", "size")] = lambda ex, o, a, k, l: (wrap(SZH(T(a[0][0]), T(a[0][1]))), wrap(SZW(T(a[0][0]), T(a[0][1]))))
+
+    def m_create(ex, o, a, k, l):
+        if a[0] != "CalculationEngine" or not (isinstance(a[1], PDict) and not a[1].d):
+            raise Unsupported(f"create_object_from_dict({a[0]!r}, ...) at L{l}")
+        return o.fields["new"]
+    mm12[("ObjectStoreView", "create_object_from_dict")] = m_create
+    mm12[("ObjectStoreView", "__getitem__")] = lambda ex, o, a, k, l: ex.entry_env["self"].fields["g_table"]
+    mm12[("ModelView", "set_reference")] = lambda ex, o, a, k, l: a[0].fields.__setitem__("identifier", a[1])
+    for cn in ("CellID", "TableSize", "CellRange"):
+        ctx.constructors[cn] = (lambda cn_: lambda ex, args, kwargs, line: PObj(cn_, dict(kwargs)))(cn)
+    from pyvc.sym import ClassRef
+    ctx.extra_globals["TSTArchives"] = PObj("module", {"CellID": ClassRef("CellID"), "TableSize": ClassRef("TableSize"), "CellRange": ClassRef("CellRange"),
+                                                        "MergeRegionMapArchive": ClassRef("MergeRegionMapArchive")})
+
+    def rm_facts(env, rg, upto):
+        an = env["g_anchors"]
+        k = z3.Int(fresh_name("rk"))
+        r, c = z3.Select(an.R, k), z3.Select(an.C, k)
+        return z3.ForAll([k], z3.Implies(z3.And(0 <= k, k < upto), z3.And(z3.Select(rg.org, k) == PACK(c, r), z3.Select(rg.size, k) == PACK(SZW(r, c), SZH(r, c)))))
+
+    def rm_inv(ex, env):
+        rg = env["g_new"].fields["cell_range"]
+        i = T(env["_i"])
+        return z3.And(i >= 0, i <= env["g_anchors"].n, rg.ln == i, rm_facts(env, rg, i))
+
+    def rm_havoc(ex, env):
+        env["g_new"].fields["cell_range"] = Ranges(z3.Int(fresh_name("rg_len")), z3.Const(fresh_name("rg_org"), A(Int, Int)), z3.Const(fresh_name("rg_size"), A(Int, Int)))
+
+    def rm_post(ex, env):
+        rg = env["g_new"].fields["cell_range"]
+        return z3.And(rg.ln == env["g_anchors"].n, rm_facts(env, rg, env["g_anchors"].n), T(env["g_ref"].fields["identifier"]) == T(env["g_new_id"]))
+    rm_post.__name__ = ("the table refers to a freshly created merge map that lists every anchor of the open document, in order, each with its packed "
+                        "position and packed size - whatever an earlier save stored")
+    plan.target(Contract(
+        "model:_NumbersModel.recalculate_merged_cells", label="rebuild", entry=rm_entry, ensures=[rm_post], safety="fork",
+        opaque={"row_col[1] << 16 | row_col[0]": lambda ex, env: wrap(PACK(T(env["row_col"][1]), T(env["row_col"][0]))),
+                "size[1] << 16 | size[0]": lambda ex, env: wrap(PACK(T(env["size"][1]), T(env["size"][0])))},
+        loops={1: LoopSpec([rm_inv], index="_i", havoc=[rm_havoc])},
+        canaries=[lambda ex, env: env["g_new"].fields["cell_range"].ln == 0]))
+
     plan.bounded.append(BoundedStandIn(
         "merges", "c12_merges.py", ["--size", "4", "--pairs", "60", "--edits", "40"],
         thorough_args=["--size", "6", "--pairs", "400", "--edits", "300"],
